@@ -18,6 +18,8 @@ N_THOROUGH = 2500000
 WALL_QUICK = 100
 WALL_THOROUGH = 1500
 
+REACH_FOCUS = {'ebb_serial': ['findPort', 'find_named_ebb', 'listEBBports', 'list_named_ebbs', 'testPort', 'openPort', 'open_named_port', 'closePort'], 'ebb3_serial': ['find_first', '_get_port_name', 'list_ebb_ports', 'list_named_ebbs', 'find_named', 'connect']}
+
 RULE = ("Scenario = a bus population of 0..6 ports (EBBs named / unnamed in macOS, Linux, Windows, pyserial-2.7 and "
         "description-only descriptor styles; foreign devices; devices whose hardware id carries the EBB VID:PID but "
         "whose description does not; near-miss descriptors that contain but do not start with the product name or "
@@ -45,7 +47,7 @@ PORTS = {'mac': ['/dev/cu.usbmodem1411', '/dev/cu.usbmodem14201', '/dev/cu.usbmo
          'py27': ['COM3', 'COM4', 'COM5', 'COM7', 'COM12', 'COM1'],
          'nameonly': ['/dev/ttyACM0', '/dev/ttyACM1', '/dev/ttyACM2', '/dev/ttyACM3', '/dev/ttyACM10', '/dev/ttyACM11']}
 NICK_POOL = ['Bob', 'AxiDraw_7', 'NextDraw01', 'East', 'east2', 'Plotter', 'ab', 'Zed', 'MiniKit', 'Lab-3', 'bob2',
-             'x1y2z3', 'Studio A']
+             'x1y2z3', 'Studio A', 'Axi Draw 2', 'West Wing 3']
 FOREIGN = [('FT232R USB UART', 'USB VID:PID=0403:6001 SER=A9XYZ LOCATION=1-3'),
            ('n/a', 'n/a'),
            ('Arduino Uno', 'USB VID:PID=2341:0043 SER=7533 LOCATION=1-1.4'),
@@ -225,7 +227,11 @@ def check(scn, hist):
                     given = None      # keyword refs are not used by the generator
                 att = _attempted_port(rec, hist)
                 if not op.get('a') and not op.get('k'):
-                    want = None if bus.raises else first_board(ports)
+                    if bus.raises:
+                        # no list exists when the enumerator itself fails; the statement quantifies over
+                        # lists.  (find_first keeps an earlier port_name in that case: observation O7.)
+                        continue
+                    want = first_board(ports)
                     if att is not None and att != want:
                         out.append(V(PROP, 'connect_wrong_device', m, oid, 'probed %r, first board is %r' % (att, want)))
                     elif att is None and want is not None and rec['exc'] is None:
@@ -244,6 +250,8 @@ def _attempted(rec):
 
 def _attempted_port(rec, hist):
     """Port on which this op attempted to open a connection / which device got the probe."""
+    if rec.get('open_attempts'):
+        return rec['open_attempts'][0]
     for ev in rec['trace']:
         if ev[0] == 'w':
             return ev[1]
@@ -334,9 +342,15 @@ def classify(scn, hist):
 def observe(scn, hist, st):
     for b in scn['world']['boards']:
         st['sets']['device_styles'].add(b.get('style') or b.get('kind'))
+    raising = False
     for rec in hist.ops:
-        if rec['op']['op'] == 'env':
-            st['extra']['env_' + rec['op']['what']] += 1
+        op = rec['op']
+        if op['op'] == 'env':
+            st['extra']['env_' + op['what']] += 1
+            if op['what'] == 'bus_raises':
+                raising = bool(op['on'])
+        elif raising and op['op'] == 'call' and op['m'] == 'connect' and not op.get('a') and rec.get('open_attempts'):
+            st['extra']['O7_connect_used_stale_port_name_while_enumerator_failed'] += 1
 
 
 # ---------------------------------------------------------------------------
@@ -358,8 +372,8 @@ def make_bus(rng, n=None):
         port = ports[i]
         if r < 0.6:
             nick = names.pop() if rng.random() < 0.7 else ''
-            if st in ('win', 'py27'):
-                nick = nick.replace(' ', '_')
+            if st in ('win', 'py27') and rng.random() < 0.5:
+                nick = nick.replace(' ', '_')      # Windows usually shows the tag with underscores
             spec = {'port': port, 'kind': 'ebb', 'fw': [3, 0, 2] if rng.random() < 0.7 else [2, 8, 1], 'nick': nick,
                     'style': st, 'loc': '%d-%d' % (rng.randint(1, 20), i + 1)}
         elif r < 0.85:
@@ -431,9 +445,12 @@ def gen(rng, idx):
         if r < 0.10:
             ops.append(lcall('ebb_serial.findPort'))
         elif r < 0.18:
-            ops.append({'op': 'new', 'obj': nobj})
-            ops.append(call(nobj, 'find_first'))
-            nobj += 1
+            if nobj and rng.random() < 0.5:
+                ops.append(call(rng.randrange(nobj), 'find_first'))       # same object, the bus may have changed
+            else:
+                ops.append({'op': 'new', 'obj': nobj})
+                ops.append(call(nobj, 'find_first'))
+                nobj += 1
         elif r < 0.26:
             ops.append(lcall(rng.choice(['ebb_serial.listEBBports', 'ebb3_serial.list_ebb_ports'])))
         elif r < 0.38:
@@ -445,21 +462,25 @@ def gen(rng, idx):
         elif r < 0.80 and boards:
             # end to end through the EBB3 layer
             b = rng.choice(boards)
-            ops.append({'op': 'new', 'obj': nobj})
+            if nobj and rng.random() < 0.4:
+                k_ = rng.randrange(nobj)                                 # an object with a past
+            else:
+                k_ = nobj
+                ops.append({'op': 'new', 'obj': nobj})
+                nobj += 1
             x = rng.random()
             from run import recase
             case = recase_choice(rng)
             if x < 0.3:
-                c = call(nobj, 'connect')
+                c = call(k_, 'connect')
             elif x < 0.65 and b.get('nick'):
-                c = call(nobj, 'connect', [recase(b['nick'], case)])
+                c = call(k_, 'connect', [recase(b['nick'], case)])
                 c['look'] = {'kind': 'tag', 'target': b['port'], 'pos': boards.index(b)}
             else:
-                c = call(nobj, 'connect', [recase(b['port'], case)])
+                c = call(k_, 'connect', [recase(b['port'], case)])
                 c['look'] = {'kind': 'port', 'target': b['port'], 'pos': boards.index(b)}
             ops.append(c)
-            ops.append(call(nobj, 'disconnect'))
-            nobj += 1
+            ops.append(call(k_, 'disconnect'))
         elif r < 0.88 and boards:
             b = rng.choice(boards)
             from run import recase
@@ -506,7 +527,7 @@ def gen(rng, idx):
 def sweep_cells(tier):
     cells = []
     for style in STYLES:
-        for named in (0, 1):
+        for named in (0, 1, 2):
             cells.append([style, named])
     return cells
 
@@ -514,6 +535,7 @@ def sweep_cells(tier):
 def sweep_expand(cell):
     from run import recase
     style, named = cell
+    tname = 'Target 7' if named == 2 else 'Target_7'
     ports = PORTS[style]
     for nports in (1, 2, 3):
         for pos in range(nports):
@@ -521,7 +543,7 @@ def sweep_expand(cell):
                 boards = []
                 for i in range(nports):
                     if i == pos:
-                        nick = 'Target_7' if named else ''
+                        nick = tname if named else ''
                         boards.append({'port': ports[i], 'kind': 'ebb', 'fw': [3, 0, 2], 'nick': nick, 'style': style,
                                        'loc': '1-%d' % (i + 1)})
                     elif filler == 'foreign':
@@ -547,7 +569,7 @@ def sweep_expand(cell):
                                 o['look'] = {'kind': 'listed', 'item': item, 'from': lfrom, 'listing': lop}
                                 ops.append(o)
                         if named:
-                            o = lcall(f, [recase('Target_7', case)])
+                            o = lcall(f, [recase(tname, case)])
                             o['look'] = {'kind': 'tag', 'target': tport, 'pos': pos}
                             ops.append(o)
                         o = lcall(f, [recase(tport, case)])
@@ -557,8 +579,8 @@ def sweep_expand(cell):
                         o['look'] = {'kind': 'absent'}
                         ops.append(o)
                 k = 1
-                for given, look in ((None, None), ('Target_7' if named else None, 'tag'), (tport, 'port'),
-                                    (tport.lower(), 'port'), ('TARGET_7' if named else None, 'tag')):
+                for given, look in ((None, None), (tname if named else None, 'tag'), (tport, 'port'),
+                                    (tport.lower(), 'port'), (tname.upper() if named else None, 'tag')):
                     if look is not None and given is None:
                         continue
                     ops.append({'op': 'new', 'obj': k})
